@@ -26,6 +26,10 @@ CLAIMED = {
    "The README operator table is transcribed into data; every operator/spelling alone, every expression tree with 2 operator nodes (exhaustive, 2142 trees) and a seeded sample of 8 000 (quick) / all ~170 000 (thorough) trees with 3 operator nodes, plus 2 500 / 400 000 random deeper trees with literals, arrays, tuples, templates, let/if/?:, are printed (i) with only the parentheses the table makes necessary and (ii) fully parenthesised, and with generated blank/comment filler at every token boundary; each rendering must parse to the tree built directly from the builtin constructors.",
    "Trusted: my transcription of the table and the 'necessary parentheses' rule (child parenthesised iff lower precedence, or equal precedence on the non-associative side; different precedence-0 constructs in tail position are always parenthesised because the table does not order them); comments after the last token are not generated (not 'between tokens').",
    "bounded-exhaustive enumeration + proptest random trees, oracle = tree built from constructors per the documented table", "§3 C09"),
+ "C08": ("vp-inproc", "exploration",
+   "Type-directed program generation against an independent reference interpreter: 100 000 (quick) / 3 000 000 (thorough) generated expressions (25% ill-typed by construction, incl. type errors hidden behind the empty array's element type) plus a bounded-exhaustive layer (every binary operator x 18 x 18 leaves of all types, unary, index, tuple access, calls, ?:/if; depth 2 over 7 leaves) are parsed, type-checked exactly as the filter / hashBy / log-format loaders do, and - if accepted - evaluated in the real rule environment (create_context over generated request attributes). Accepted => no panic, result of the accepted type, equal to the reference value where the documentation defines one, or a dynamic error (division by zero, overflow, index, regex, non-numeric) that some evaluated sub-term can produce; && / || / if / ?: must not evaluate the operand they skip.",
+   "Trusted: the reference semantics of DESIGN.md Appendix A (deliberately agnostic where the documentation is silent: overflow may wrap or error, negative indexes may count from the end, to_string of a string is judged for type only); error classes are recognised by message text; the parser's documented nesting limit (16) is tolerated.",
+   "proptest type-directed generation + bounded-exhaustive enumeration vs reference interpreter (differential)", "§3 C08, Appendix A"),
 }
 
 NOT_YET = "check not built yet in this session (see DESIGN.md §6 build order); will be claimed once its generator and oracle exist"
